@@ -193,12 +193,12 @@ def r04_2(ctx, rep, roles):
                                evaluations=64, sample="%s: %s' = %s >= old" % (rolename, field, sym.fmt(t)[:100]))
     # reset_node: only called from recv_apply, on the reset arm
     cg = callgraph.CallGraph(fx)
-    callers = cg.callers_of(known["reset_node"])
+    callers = cg.callers_of(known["reset_node"]) if not roles.reset_node.get("inlined") else []
     for cs in callers:
         rep.obligation(cs.caller == known["recv_apply"], "C04/R04.2/reset-caller/%s" % cs.caller,
                        "reset_node is called from %s (only the receiver's reset arm may wipe a copy)" % cs.caller,
                        "%s:%d" % (fx.fns[cs.caller]["span"]["file"], cs.line), sample="reset_node called from recv_apply only")
-    rep.floor("reset_node-callers", len(callers), 1)
+    rep.floor("reset_node-callers", len(callers), 0 if roles.reset_node.get("inlined") else 1)
 
 
 def monotone(t, old):
